@@ -98,6 +98,32 @@ Theorem C07_piecewise_constant_linear : forall x y y' n a b, length y = length y
 Proof. exact piecewise_constant_linear. Qed.
 Print Assumptions C07_piecewise_constant_linear.
 
+(** ======== strategy-level corollaries (closed-form theorems transported through the link theorems) ======== *)
+From TW Require Import Model.RfaSpec Proofs.RfaFinal.
+(** y -> a*y + b commutes with every computed strategy (a <> 0 needed only by the adaptive ones) *)
+Theorem C07_strategies_y_affine : forall pw gpow x y n alpha beta a' a b, a <> 0 -> GpowPos gpow ->
+  (2 <= n)%nat -> (2 <= length x)%nat -> length x = length y -> ssorted x ->
+  (window_a n alpha a' <= Z.of_nat n)%Z -> 0 <= beta -> beta <= 1 ->
+  snd (rfa_pc x (ymap a b y) n) = ymap a b (snd (rfa_pc x y n)) /\
+  snd (rfa_linear_fixed x (ymap a b y) n alpha a') = ymap a b (snd (rfa_linear_fixed x y n alpha a')) /\
+  snd (rfa_exp_fixed pw x (ymap a b y) n alpha beta a') = ymap a b (snd (rfa_exp_fixed pw x y n alpha beta a')) /\
+  snd (rfa_linear_adaptive gpow x (ymap a b y) n alpha a') = ymap a b (snd (rfa_linear_adaptive gpow x y n alpha a')) /\
+  snd (rfa_exp_adaptive pw gpow x (ymap a b y) n alpha beta a') = ymap a b (snd (rfa_exp_adaptive pw gpow x y n alpha beta a')).
+Proof. exact strategies_y_affine. Qed.
+Print Assumptions C07_strategies_y_affine.
+
+(** x -> c*x + d (c > 0): abscissae mapped, values unchanged *)
+Theorem C07_strategies_x_affine : forall pw gpow x y n alpha beta a' c d, 0 < c -> GpowPos gpow ->
+  (2 <= n)%nat -> (2 <= length x)%nat -> length x = length y -> ssorted x ->
+  (window_a n alpha a' <= Z.of_nat n)%Z -> 0 <= beta -> beta <= 1 ->
+  rfa_pc (xmap c d x) y n = (xmap c d (fst (rfa_pc x y n)), snd (rfa_pc x y n)) /\
+  rfa_linear_fixed (xmap c d x) y n alpha a' = (xmap c d (fst (rfa_linear_fixed x y n alpha a')), snd (rfa_linear_fixed x y n alpha a')) /\
+  rfa_exp_fixed pw (xmap c d x) y n alpha beta a' = (xmap c d (fst (rfa_exp_fixed pw x y n alpha beta a')), snd (rfa_exp_fixed pw x y n alpha beta a')) /\
+  rfa_linear_adaptive gpow (xmap c d x) y n alpha a' = (xmap c d (fst (rfa_linear_adaptive gpow x y n alpha a')), snd (rfa_linear_adaptive gpow x y n alpha a')) /\
+  rfa_exp_adaptive pw gpow (xmap c d x) y n alpha beta a' = (xmap c d (fst (rfa_exp_adaptive pw gpow x y n alpha beta a')), snd (rfa_exp_adaptive pw gpow x y n alpha beta a')).
+Proof. exact strategies_x_affine. Qed.
+Print Assumptions C07_strategies_x_affine.
+
 Example C07_example :
   let x := [qz 0; qz 1; qz 3; qz 4] in let y := [qz 2; qz 6; qz 1; qz 3] in
   list_eqb Qc_eqb (snd (rfa_exp_adaptive (pw_int 2) (fun g => g) (xmap (qz 3) (qz 7) x) (ymap (qz (-2)) (qz 5) y) 4 1 Qc_half None))
